@@ -109,7 +109,7 @@ struct MapStream : Family {
 		if (bigMap) { lgw = r.range(7, 9); h = (40000u >> lgw) + r.below(60); } // tile block above the 128 KiB stream-copy chunk
 		while ((h << lgw) > (thorough || bigMap ? 70000u : 9000u)) h /= 2;
 		static const int64_t SG[] = {0, 0, 1, 2, -1, 256, 0x7fffffff};
-		m.set("seed", hex64(r.next())).set("lgw", lgw).set("h", h).set("nsrc", r.chance(1, 4) ? 0 : r.below(7)).set("nmap", r.chance(1, 4) ? 0 : r.below(21)).set("nter", r.chance(1, 3) ? 0 : r.below(thorough ? 20 : 5))
+		m.set("seed", hex64(r.next())).set("lgw", lgw).set("h", h).set("nsrc", r.chance(1, 4) ? 0 : r.chance(1, 40) ? r.range(500, 540) : r.below(7)).set("nmap", r.chance(1, 4) ? 0 : r.below(21)).set("nter", r.chance(1, 3) ? 0 : r.below(thorough ? 20 : 5))
 		 .set("ngroups", r.chance(1, 3) ? 0 : r.below(8)).set("saved", std::to_string(SG[r.below(7)])).set("tag", r.chance(1, 2) ? 0x1011 : r.chance(1, 2) ? 0x1010 : 0x1010 + r.below(0xfffff000u)).set("trailing", r.chance(1, 2) ? 0 : r.below(30)).set("wrapgroups", r.chance(1, 6) ? 1 : 0);
 		p.world.push_back(m);
 		size_t nops = static_cast<size_t>(r.range(2, thorough ? 40 : 20));
